@@ -24,6 +24,7 @@ theorem step_args_length (st : St) (x : Instr) : (step st x).args.length = st.ar
     cases m <;> simp only [step] <;> split <;> simp [noteOob, put_args_length, setSlot_length, noteRam_args]
   | derive a i k d => simp only [step]; split <;> simp [noteOob, put_args_length, noteRam_args]
   | read a i => simp only [step]; split <;> simp [noteOob, noteRam_args]
+  | shift a i => simp only [step]; split <;> simp [noteOob, noteRam_args]
   | steal a d => simp only [step]; split <;> simp [noteOob, put_args_length]
   | pop a i d => simp only [step]; split <;> simp [noteOob, put_args_length, setSlot_length, noteRam_args]
   | swap a i j => simp only [step]; split <;> simp [noteOob, setSlot_length, noteRam_args]
@@ -44,6 +45,7 @@ theorem step_lost_of_keeps (st : St) (x : Instr) (h : x.KeepsValues st.args.leng
     · rfl
     · rw [put_lost_of_keeps _ _ _ (by simpa [noteRam_args] using hd)]; simp
   | read a i => simp only [step]; split <;> simp [noteOob]
+  | shift a i => simp only [step]; split <;> simp [noteOob]
   | steal a d =>
     have hd := h d rfl
     simp only [step]; split
@@ -97,21 +99,40 @@ theorem noDrop_map {α : Type} (l : List α) (f : α → Instr) (h : ∀ i, (f i
 theorem noDrop_ite {c : Prop} [Decidable c] {p q : List Instr} (hp : NoDropP p) (hq : NoDropP q) : NoDropP (if c then p else q) := by
   split <;> assumption
 
+theorem noDrop_nil : NoDropP [] := fun x hx => absurd hx List.not_mem_nil
+
+theorem noDrop_append {p q : List Instr} (hp : NoDropP p) (hq : NoDropP q) : NoDropP (p ++ q) :=
+  fun x hx => (List.mem_append.1 hx).elim (hp x) (hq x)
+
+theorem noDrop_cons {x : Instr} {q : List Instr} (hx : x.dest ≠ some .drop) (hq : NoDropP q) : NoDropP (x :: q) :=
+  fun y hy => (List.mem_cons.1 hy).elim (fun e => e ▸ hx) (hq y)
+
+theorem noDrop_xferAll_arg (a n : Nat) (m : Mode) (b : Nat) : NoDropP (xferAll a n m (.arg b)) :=
+  noDrop_map _ _ (fun i e => by cases e)
+
+theorem noDrop_freshRange_arg (n b : Nat) : NoDropP (freshRange n (.arg b)) :=
+  noDrop_map _ _ (fun i e => by cases e)
+
+/-- closes `NoDropP (prog o inp)` goals: everything that goes to the result, or into an argument -/
+macro "no_drop" : tactic =>
+  `(tactic| repeat' (first
+      | exact noDrop_nil | exact noDrop_xferAll_arg _ _ _ _ | exact noDrop_freshRange_arg _ _
+      | (refine noDrop_of_allToRes ?_; all_to_res; done)
+      | exact noDrop_map _ _ (fun i e => by cases e)
+      | apply noDrop_append | apply noDrop_ite | apply noDrop_cons (fun e => by cases e)))
+
 theorem prog_noDrop (o : Op) (inp : Input) (h : drops o = false) : NoDropP (prog o inp) := by
   cases o <;> simp only [drops, Bool.true_eq_false] at h <;> simp only [prog] <;>
     first
     | (refine noDrop_of_allToRes ?_; all_to_res; done)
+    | (no_drop; done)
     | skip
-  case getOrInsert => exact noDrop_ite (noDrop_of_allToRes allToRes_nil) (fun x hx e => by simp at hx; subst hx; cases e)
-  case getOrInsertWithResult => exact noDrop_ite (noDrop_of_allToRes allToRes_nil) (fun x hx e => by simp at hx; subst hx; cases e)
   case eithSequence => split <;> (refine noDrop_of_allToRes ?_; all_to_res)
   case gridResize =>
     apply noDrop_map
     intro k e
     unfold gridCell at e
     split at e <;> cases e
-  case treePushValue => exact noDrop_map _ _ (fun i e => by cases e)
-  case treePushTree => exact noDrop_map _ _ (fun i e => by cases e)
-  case parseRepetition => exact noDrop_map _ _ (fun i e => by cases e)
+  case eithSequenceError => split <;> (refine noDrop_of_allToRes ?_; all_to_res)
 
 end Fcppt.C05
